@@ -42,26 +42,10 @@ mod verif_kani_state {
         c.vendor_id_selector.set(kani::any());
     }
 
-    /// recorded panic classes D9 / D10 (same predicates as spec/verif_prelude.rs: decode_known_panic, process_known_panic)
-    fn known_panic(p: &[u8], n_vendor: usize) -> bool {
-        if p.len() < 12 || p[4] != 1 || p[8] != 0 {
-            return false;
-        }
-        let req = p[9] & 0x80 != 0;
-        if req {
-            if p[10] > 8 || p[10] == 0 || p[10] == 7 || p[10] == 8 {
-                return true;
-            }
-            if p.len() >= 13 && p[10] == 1 && !(p[11] == 0 || p[11] == 1 || p[11] == 3) {
-                return true;
-            }
-            if p.len() >= 13 && p[10] == 6 && (p[11] as usize) >= n_vendor {
-                return true;
-            }
-            false
-        } else {
-            p.len() >= 13 && (p[11] > 5 || (p[11] == 0 && !(p[10] <= 6 || p[10] == 8 || p[10] == 9)))
-        }
+    /// recorded panic class D9c (same predicate as spec/verif_prelude.rs: decode_known_panic): a control response whose
+    /// completion code is above 0x05.  (D9a/b and D10a-c are fixed: no other input is excluded.)
+    fn known_panic(p: &[u8], _n_vendor: usize) -> bool {
+        p.len() >= 13 && p[4] == 1 && p[8] == 0 && p[9] & 0x80 == 0 && p[11] > 5
     }
 
     // ------------------------------------------------------------------ K.cell.acc (C13)
@@ -130,12 +114,11 @@ mod verif_kani_state {
         havoc_cells(&c);
         let (e0r, e0s, s0) = (c.get_request().get_eid(), c.get_response().get_eid(), c.vendor_id_selector.get());
         let mut p: [u8; 14] = kani::any();
-        // an accepted Set Endpoint ID request: version 1, control type, request bit, command 1, operation 0/1/3
+        // an accepted Set Endpoint ID request: version 1, control type, request bit, command 1, EVERY operation byte
         p[4] = 1;
         p[8] = 0;
         kani::assume(p[9] & 0x80 != 0);
         p[10] = 1;
-        kani::assume(p[11] == 0 || p[11] == 1 || p[11] == 3);
         let mut rb: [u8; 64] = kani::any();
         let r = c.process_packet(&p, &mut rb);
         // pec runs under its weakest contract (any u8): keep the executions in which the PEC comparisons passed.
@@ -149,7 +132,7 @@ mod verif_kani_state {
                     assert!(c.get_request().get_eid() == p[12] && c.get_response().get_eid() == p[12]);
                     assert!(rb[11] == 0 && rb[12] == 0 && rb[13] == p[12] && rb[14] == 0);
                 } else {
-                    // Set Discovered Flag: ErrorInvalidData, no assignment
+                    // Reset EID, Set Discovered Flag, undefined operation: ErrorInvalidData, no assignment, the old EID is reported
                     assert!(c.get_request().get_eid() == e0r && c.get_response().get_eid() == e0s);
                     assert!(rb[11] == 2);
                     assert!(rb[13] == e0s);
@@ -264,8 +247,8 @@ mod verif_kani_state {
         kani::assume(1 <= n && n <= 16);
         let c = MCTPSMBusContext::new(kani::any(), &mt, &all[0..n]);
         havoc_cells(&c);
-        let i: u8 = kani::any();
-        kani::assume((i as usize) < n);
+        let i: u8 = kani::any(); // every selector byte, in range or not
+        let s0 = c.vendor_id_selector.get();
         let mut p: [u8; 13] = kani::any();
         p[4] = 1;
         p[8] = 0;
@@ -276,10 +259,16 @@ mod verif_kani_state {
         let r = c.process_packet(&p, &mut rb);
         kani::assume(r.is_ok()); // pec under its weakest contract, see k_step_set_eid
         match r {
+            Ok((_, Some(m))) if (i as usize) >= n => {
+                // out of range (fix of D10c): ErrorInvalidData, end selector, no vendor ID, stored selector untouched
+                assert!(m == 14 && rb[11] == 2 && rb[12] == 0xFF);
+                assert!(c.vendor_id_selector.get() == s0);
+            }
             Ok((_, Some(m))) => {
                 let exp_next = if i as usize + 1 == n { 0xFFu8 } else { i + 1 };
                 assert!(rb[11] == 0); // Success
                 assert!(rb[12] == exp_next);
+                assert!(c.vendor_id_selector.get() == exp_next);
                 let vi = &all[i as usize];
                 assert!(rb[13] == vi.format);
                 if vi.format == 0 {
@@ -292,7 +281,8 @@ mod verif_kani_state {
             }
             _ => assert!(false),
         }
-        kani::cover!(true);
+        kani::cover!((i as usize) < n);
+        kani::cover!((i as usize) >= n);
     }
 
     // ------------------------------------------------------------------ K.enum: the three enumerate loops, unrewritten (R3 cross-check)
